@@ -42,3 +42,26 @@ Theorem C06_reported_bytes_are_the_delivered_bytes : forall b m0 ops,
   w_bytes_written (m_writer (fst (run m0 ops))) = len (sink_bytes (w_sink (m_writer (fst (run m0 ops))))).
 Proof. exact bytes_written_equals_sink_length. Qed.
 Print Assumptions C06_reported_bytes_are_the_delivered_bytes.
+
+From Muxide Require Export Model.F64 Proofs.HistoryProofs.
+(* duration clause, integer level: the tick count that finish divides by 90000 is the largest
+   presentation end (pts + duration) over all queued samples *)
+Theorem C06_duration_ticks_are_the_largest_presentation_end : forall w,
+  max_end_pts w =
+    match map (sample_end (w_vlast_delta w)) (w_vrev w) ++ map (sample_end (w_alast_delta w)) (w_arev w) with
+    | [] => None
+    | l => Some (fold_right N.max 0 l)
+    end.
+Proof. exact max_end_pts_is_largest_presentation_end. Qed.
+Print Assumptions C06_duration_ticks_are_the_largest_presentation_end.
+
+Theorem C06_reported_duration_is_that_tick_count_over_90000 : forall m s m',
+  step m FIN = (m', RStats s) ->
+  st_duration s = fdiv (of_N (match max_end_pts (m_writer m) with Some t => t | None => 0 end)) f_90000.
+Proof. exact reported_duration_is_max_end_over_90000. Qed.
+Print Assumptions C06_reported_duration_is_that_tick_count_over_90000.
+
+Theorem C06_nothing_is_written_after_finalization : forall m ops,
+  w_finalized (m_writer m) = true -> sink_of (fst (run m ops)) = sink_of m.
+Proof. exact nothing_is_written_after_finalization. Qed.
+Print Assumptions C06_nothing_is_written_after_finalization.
